@@ -558,6 +558,19 @@ theorem anycastRewrite_eq (a r : BitVec 32) (d : Nat) (h1 : 1 â‰¤ d) (h32 : d â‰
     rw [BitVec.toNat_sub, BitVec.toNat_ofNat, BitVec.toNat_ofNat]; omega
   rw [this, lowmask32 d h1 h32]
 
+theorem shlGuard_eq {w : Nat} (x : BitVec w) (n : Nat) : shlGuard x n = x <<< n := by
+  unfold shlGuard
+  split
+  Â· rfl
+  Â· apply BitVec.eq_of_getLsbD_eq
+    intro i hi
+    simp [BitVec.getLsbD_shiftLeft]
+    omega
+
+/-- the executable form used by the driver is the modelled arithmetic -/
+theorem anycastRewriteExec_eq (a d r : BitVec 32) : anycastRewriteExec a d r = anycastRewrite a d r := by
+  simp only [anycastRewriteExec, anycastRewrite, shlGuard_eq]
+
 theorem getLsbD_of_toNat_lt {r : BitVec 32} {d i : Nat} (hr : r.toNat < 2 ^ d) (hi : d â‰¤ i) :
     r.getLsbD i = false := by
   unfold BitVec.getLsbD
